@@ -23,6 +23,9 @@ PIECES = [
     "#ATTACKS:x:y;",
     "#attacks;",
     "#DISPLAYBPM:1:2;",
+    "#DISPLAYBPM:1:;",
+    "#ATTACKS::y;",
+    "#VERSION;",
     "#K:a\\:b;",
     "#NOTES:a:b:c:d:e:f;",
     "#NOTES: a :b:c:d:e: f :g:h;",
@@ -40,7 +43,7 @@ PIECES = [
     "// comment\n",
     "\r\n",
 ]
-CORE_PIECES = [0, 1, 2, 4, 6, 10, 13, 15, 17, 18, 22]
+CORE_PIECES = [0, 1, 2, 4, 6, 9, 13, 16, 18, 24, 25]
 
 # layer C: character-level symbols
 SYMBOLS = ["a", "#", ":", ";", "\n", "\\", "/", "VERSION", "NOTES"]
